@@ -1058,7 +1058,7 @@ func runC04(cfg *vh.Config) error {
 			if strings.Contains(mem.err.Error(), "is not compatible with list.unique_string") {
 				for _, p := range props {
 					t := p.P.T
-					if t.Kind == TKey && t.KF == KCustom && t.List != nil && p.P.PK == PSingle && (t.KPat == wellKnownPatterns[0] || t.KPat == wellKnownPatterns[1] || t.KPat == wellKnownPatterns[2]) {
+					if t.Kind == TKey && t.KF == KCustom && t.List != nil && p.P.PK != PMap && (t.KPat == wellKnownPatterns[0] || t.KPat == wellKnownPatterns[1] || t.KPat == wellKnownPatterns[2]) {
 						sig = "C04 key:custom whose pattern is one of the reader's well-known patterns (date / number / id62) and which carries list rules: the reader fails (string format is not compatible with list.unique_string), the object does not reflect"
 					}
 				}
